@@ -1,5 +1,6 @@
 \* C20 quick tier: the three invariants evaluated in one pass (Inv_All)
 CONSTANT Slices = {"err", "opts", "upd_enum", "upd_err", "upd_pres", "op_enum", "op_head", "op_det", "op_combo", "out", "inp", "decode", "factory"}
+CONSTANT Fixed = TRUE        \* default; checks/c20.py substitutes spec/variant.json "WireFixed"
 INIT Init
 NEXT Next
 
